@@ -191,9 +191,15 @@ def mk_source(cfg):
     return None if s is None else em.Source(**s)
 
 
-def gseed(rng):
-    """seeds are boundary-heavy: 0 is a valid seed and must seed every stream"""
+def useed(rng):
+    """seed of a random unitary (scipy: below 2^32)"""
     return rng.choice([0, 0, 1, rng.randint(0, 10 ** 6), rng.randint(0, 10 ** 6), rng.randint(0, 10 ** 6), rng.randint(0, 10 ** 6)])
+
+
+def gseed(rng):
+    """seeds are boundary-heavy: 0 is a valid seed and must seed every stream; any Python int is a valid seed"""
+    return rng.choice([0, 0, 1, rng.randint(0, 10 ** 6), rng.randint(0, 10 ** 6), rng.randint(0, 10 ** 6), rng.randint(0, 10 ** 6),
+                       2 ** 32 + rng.randint(0, 99), 2 ** 63 + rng.randint(0, 99)])
 
 
 def _det_variant(d):
@@ -207,6 +213,16 @@ def mk_detector(d):
         det.photon_counting = d["pc"]
         det.p_dark = d["pdark"]
         det.efficiency = d["eff"]
+        return det
+    if (int(round(d["eff"] * 1000)) // 3 + int(round(d["pdark"] * 1000)) // 3) % 2 == 1:
+        # a detector that worked with other (imperfect) settings first and is then re-configured through its setters
+        det = em.Detector(efficiency=0.3, p_dark=0.2, photon_counting=not d["pc"])
+        st = pyrandom.getstate()
+        det._get_output(lw.State([2, 0, 1]))
+        pyrandom.setstate(st)
+        det.efficiency = d["eff"]
+        det.p_dark = d["pdark"]
+        det.photon_counting = d["pc"]
         return det
     return em.Detector(efficiency=d["eff"], p_dark=d["pdark"], photon_counting=d["pc"])
 
@@ -253,7 +269,15 @@ def sampler_info(cfg):
     return _sampler_info(json.dumps(cfg, sort_keys=True))
 
 
-def mk_quick(cfg, pc, ps):
+def mk_quick(cfg, pc, ps, form=None):
+    if form == "setters":
+        # created with the defaults (a discarded twin has its defaults changed first), then configured by assignment
+        d0 = em.QuickSampler(mk_circuit(cfg), lw.State(list(cfg["input"])))
+        d0.photon_counting = False
+        q = em.QuickSampler(mk_circuit(cfg), lw.State(list(cfg["input"])))
+        q.post_select = mk_psel(ps)
+        q.photon_counting = pc
+        return q
     return em.QuickSampler(mk_circuit(cfg), lw.State(list(cfg["input"])), photon_counting=pc,
                            post_select=mk_psel(ps))
 
@@ -479,7 +503,7 @@ def g_cfg(rng, tier, heralds=None, lossy=False, source=False, max_modes=None):
     nmax = max_modes or (5 if tier == "quick" else 6)
     n = rng.randint(2, nmax)
     if rng.random() < 0.6:
-        circ = dict(kind="unitary", n=n, useed=gseed(rng))
+        circ = dict(kind="unitary", n=n, useed=useed(rng))
     else:
         ops = []
         for _ in range(rng.randint(1, 2 * n)):
@@ -597,7 +621,9 @@ class C07:
             "predicate language (incl. out-of-range modes); min_detection at k-1,k,k+1 of the photon number of kept states; "
             "seeds random. Oracle-stream replay of Detector._get_output, Sampler.sample, sample_N_inputs, sample_N_outputs, "
             "QuickSampler.sample / sample_N_outputs; PostSelection add/validate programs; malformed arguments; "
-            "statistical TEST cases. Non-trivial = a sampling case with an imperfect detector, a herald, a post-selection "
+            "statistical TEST cases; histories on the sampling object (other methods, other arguments and rejected calls first; the call repeated "
+            "with the same seed on the same object; no previous read of the distribution; no seed), positional arguments, detectors re-configured "
+            "after use, QuickSampler configured through its setters, seeds 0 / 1 / 2^32+k / 2^63+k. Non-trivial = a sampling case with an imperfect detector, a herald, a post-selection "
             "or min_detection>0, or a post-selection program with >=1 rule; distinct = distinct canonical JSON")
     TRUSTED = [
         "numpy Generator.choice(p=..) == searchsorted(cumsum(p)/cumsum(p)[-1], Generator.random(N), side='right') and python "
@@ -688,6 +714,8 @@ class C07:
                          N=rng.choice([0, 1, 7, nd, nd, nd]), seed=gseed(rng))
                 c["psel"] = g_psel_sat(rng, c, nm)
                 c["mind"] = g_mind(rng, c)
+                c["warm"] = rng.random() < 0.5
+                c["pos"] = rng.random() < 0.3
                 return c
             add(self._try(mk))
 
@@ -702,6 +730,8 @@ class C07:
                          N=rng.choice([0, 1, 7, nd, nd, nd]), seed=gseed(rng))
                 c["psel"] = g_psel_sat(rng, c, nm)
                 c["mind"] = g_mind(rng, c)
+                c["warm"] = rng.random() < 0.5
+                c["pos"] = rng.random() < 0.3
                 return c
             add(self._try(mk))
 
@@ -712,7 +742,7 @@ class C07:
                 inp = [0] * (n - 1)
                 for _ in range(2):
                     inp[rng.randrange(n - 1)] += 1
-                cfg = dict(circ=dict(kind="unitary", n=n, useed=gseed(rng)),
+                cfg = dict(circ=dict(kind="unitary", n=n, useed=useed(rng)),
                            heralds=[[1, rng.randrange(n), rng.randrange(n)]], input=inp)
                 kind = "n_outputs" if i % 2 == 0 else "n_inputs"
                 det = dict(eff=1.0, pdark=0.0, pc=False) if kind == "n_outputs" else dict(
@@ -721,6 +751,7 @@ class C07:
                          N=nd, seed=gseed(rng))
                 if rng.random() < 0.4:
                     c["psel"] = g_psel_sat(rng, c, n - 1)
+                c["warm"] = rng.random() < 0.5
                 return c
             add(self._try(mk))
 
@@ -730,7 +761,7 @@ class C07:
                 cfg = g_cfg(rng, tier, heralds=rng.choice([0, 0, 0, 1, 2]), lossy=rng.random() < 0.2,
                             source=rng.random() < 0.3)
                 return dict(kind="sample", **cfg, det=g_det(rng), M=rng.choice([1, 20, nd // 2]),
-                            seed=gseed(rng))
+                            seed=gseed(rng), warm=rng.random() < 0.4, noread=rng.random() < 0.5)
             add(self._try(mk))
 
         # -- QuickSampler
@@ -742,6 +773,7 @@ class C07:
                 c = dict(kind=kind, **cfg, pc=rng.random() < 0.6, psel=g_psel(rng, nm, state_attr=False),
                          seed=gseed(rng))
                 c["M" if kind == "qs_sample" else "N"] = rng.choice([0, 1, 30, nd]) if kind != "qs_sample" else rng.choice([1, 30, nd // 2])
+                c.update(warm=rng.random() < 0.4, noread=rng.random() < 0.5, form=rng.choice([None, None, "setters"]))
                 return c
             add(self._try(mk))
 
@@ -826,7 +858,16 @@ class C07:
             items, _, nm, _ = sampler_info(cfg_of(c))
             stream = py_stream(c["seed"], c["M"] * (1 + max_photons(items) + nm) + 1)
             s = mk_sampler(cfg_of(c), c["det"])
-            s.probability_distribution  # noqa: B018
+            if not c.get("noread"):
+                s.probability_distribution  # noqa: B018
+            if c.get("warm"):
+                # the object has sampled before (all three methods, one call rejected): the draws after seeding are the same
+                for call in (lambda: s.sample(), lambda: s.sample_N_inputs(3, seed=5), lambda: s.sample_N_outputs(3, seed=5),
+                             lambda: s.sample_N_inputs(3, min_detection=0.5), lambda: s.sample()):
+                    try:
+                        call()
+                    except Exception:  # noqa: BLE001
+                        pass
             pyrandom.seed(c["seed"])
             outs = [list(s.sample()) for _ in range(c["M"])]
             return {"ok": {"outs": outs, "used": consumed(stream)}}
@@ -834,39 +875,68 @@ class C07:
             items, _, nm, _ = sampler_info(cfg_of(c))
             s = mk_sampler(cfg_of(c), c["det"])
             ps = mk_psel(c["psel"])
+            f = s.sample_N_inputs if k == "n_inputs" else s.sample_N_outputs
+            g = s.sample_N_outputs if k == "n_inputs" else s.sample_N_inputs
+            cnt = lambda r: [[list(st), int(n)] for st, n in r.items()]  # noqa: E731
+            if c.get("pos"):
+                call = lambda: f(c["N"], ps, c["mind"], c["seed"])  # noqa: E731
+            else:
+                call = lambda: f(c["N"], post_select=ps, min_detection=c["mind"], seed=c["seed"])  # noqa: E731
+            if c.get("warm"):
+                # history on the object that answers: the other method, this method with other arguments, a sample(),
+                # two rejected calls - the observed call must give what a fresh object gives
+                for w in (lambda: g(4, seed=c["seed"] + 1), lambda: f(5, seed=3), lambda: s.sample(),
+                          lambda: f(5, post_select=(lambda st: False), seed=2), lambda: f(5, min_detection=1.5, seed=1),
+                          lambda: f(5, post_select=7, seed=1)):
+                    try:
+                        w()
+                    except Exception:  # noqa: BLE001
+                        pass
             if k == "n_inputs":
                 stream = py_stream(c["seed"], c["N"] * (max_photons(items) + nm) + 1)
 
                 def run():
-                    r = s.sample_N_inputs(c["N"], post_select=ps, min_detection=c["mind"], seed=c["seed"])
-                    return {"counts": [[list(st), int(n)] for st, n in r.items()], "used": consumed(stream)}
+                    r = call()
+                    return {"counts": cnt(r), "used": consumed(stream)}
                 first = guarded(run)
             else:
-                def run():
-                    r = s.sample_N_outputs(c["N"], post_select=ps, min_detection=c["mind"], seed=c["seed"])
-                    return {"counts": [[list(st), int(n)] for st, n in r.items()]}
-                first = guarded(run)
-            # a fixed seed reproduces the same result (fresh object, same seed)
+                first = guarded(lambda: {"counts": cnt(call())})
+            # a fixed seed reproduces the same result: on the same object ...
+            first["_same"] = guarded(lambda: cnt(call()))
+            # ... and on a fresh object
             s2 = mk_sampler(cfg_of(c), c["det"])
             ps2 = mk_psel(c["psel"])
-            f = s2.sample_N_inputs if k == "n_inputs" else s2.sample_N_outputs
-            second = guarded(lambda: [[list(st), int(n)] for st, n in
-                                      f(c["N"], post_select=ps2, min_detection=c["mind"], seed=c["seed"]).items()])
+            f2 = s2.sample_N_inputs if k == "n_inputs" else s2.sample_N_outputs
+            second = guarded(lambda: cnt(f2(c["N"], post_select=ps2, min_detection=c["mind"], seed=c["seed"])))
             first["_again"] = second
+            # without a seed: every returned state still satisfies heralds, post-selection and min_detection
+            first["_noseed"] = guarded(lambda: cnt(f2(c["N"], post_select=ps2, min_detection=c["mind"])))
             return first
         if k in ("qs_sample", "qs_n_outputs"):
             def run():
-                qs = mk_quick(cfg_of(c), c["pc"], c["psel"])
-                qs.probability_distribution  # noqa: B018
+                qs = mk_quick(cfg_of(c), c["pc"], c["psel"], c.get("form"))
+                if not c.get("noread"):
+                    qs.probability_distribution  # noqa: B018
+                if c.get("warm"):
+                    for w in (lambda: qs.sample(), lambda: qs.sample_N_outputs(3, seed=5), lambda: qs.sample_N_outputs(3, seed="x")):
+                        try:
+                            w()
+                        except Exception:  # noqa: BLE001
+                            pass
                 if k == "qs_sample":
                     stream = py_stream(c["seed"], c["M"] + 1)
                     pyrandom.seed(c["seed"])
                     outs = [list(qs.sample()) for _ in range(c["M"])]
                     return {"outs": outs, "used": consumed(stream)}
                 r = qs.sample_N_outputs(c["N"], seed=c["seed"])
-                r2 = mk_quick(cfg_of(c), c["pc"], c["psel"]).sample_N_outputs(c["N"], seed=c["seed"])
+                r1 = qs.sample_N_outputs(c["N"], seed=c["seed"])            # same object, same seed
+                q2 = mk_quick(cfg_of(c), c["pc"], c["psel"])
+                r2 = q2.sample_N_outputs(c["N"], seed=c["seed"])            # fresh object, same seed
+                r3 = q2.sample_N_outputs(c["N"])                            # no seed
                 return {"supported": True, "counts": [[list(st), int(n)] for st, n in r.items()],
-                        "_again": [[list(st), int(n)] for st, n in r2.items()]}
+                        "_again": [[list(st), int(n)] for st, n in r2.items()],
+                        "_same": [[list(st), int(n)] for st, n in r1.items()],
+                        "_noseed": [[list(st), int(n)] for st, n in r3.items()]}
             return guarded(run)
         if k == "postsel":
             p = PostSelection(multi_rules=c["multi"])
@@ -1041,9 +1111,10 @@ class C07:
             a = {"ok": a}
         if isinstance(a, dict):
             a = copy.deepcopy(a)
-            a.pop("_again", None)
-            if isinstance(a.get("ok"), dict):
-                a["ok"].pop("_again", None)
+            for kk in ("_again", "_same", "_noseed"):
+                a.pop(kk, None)
+                if isinstance(a.get("ok"), dict):
+                    a["ok"].pop(kk, None)
         if b == "unbuildable":
             return None if (isinstance(a, dict) and "err" in a) else "model side could not build the configuration"
         return core.approx_equal(a, b)
@@ -1107,15 +1178,34 @@ class C07:
         if exp_err:
             return f"{k} returned a result where {exp_err} is required"
         counts = obs["ok"]["counts"]
+        f = self._valid_counts(c, counts, items, her, im, k)
+        if f:
+            return f
+        again = obs.get("_again")
+        if again is not None and again != {"ok": counts}:
+            return f"{k}: the same seed gave a different result on a fresh sampler"
+        same = obs.get("_same")
+        if same is not None and same != {"ok": counts}:
+            return f"{k}: the same seed gave a different result when the call was repeated on the same sampler"
+        ns = obs.get("_noseed")
+        if ns is not None:
+            if "ok" not in ns:
+                return f"{k} without a seed raised {ns['err']} where the seeded call succeeds"
+            f = self._valid_counts(c, ns["ok"], items, her, im, k + " (no seed)")
+            if f:
+                return f
+        return None
+
+    def _valid_counts(self, c, counts, items, her, im, k):
         total = sum(n for _, n in counts)
         if len({tuple(s) for s, _ in counts}) != len(counts):
             return f"{k}: duplicate states in the result"
-        if k == "n_outputs" and total != c["N"]:
-            return f"sample_N_outputs returned {total} samples, N = {c['N']}"
-        if k == "n_inputs" and total > c["N"]:
-            return f"sample_N_inputs returned {total} samples from {c['N']} inputs"
+        if c["kind"] == "n_outputs" and total != c["N"]:
+            return f"{k}: sample_N_outputs returned {total} samples, N = {c['N']}"
+        if c["kind"] == "n_inputs" and total > c["N"]:
+            return f"{k}: sample_N_inputs returned {total} samples from {c['N']} inputs"
         # what one detected full state can look like: support of the exact law
-        det = c["det"] if k == "n_inputs" else dict(eff=1.0, pdark=0.0, pc=c["det"]["pc"])
+        det = c["det"] if c["kind"] == "n_inputs" else dict(eff=1.0, pdark=0.0, pc=c["det"]["pc"])
         law = ref_law_inputs(items, det, her, c["psel"], c["mind"])
         for s, n in counts:
             if n <= 0:
@@ -1133,9 +1223,6 @@ class C07:
             if law.get(tuple(s), 0.0) <= 0:
                 return (f"{k}: returned state {s} is impossible: no detected output with the heralds {her} satisfied "
                         f"reduces to it")
-        again = obs.get("_again")
-        if again is not None and again != {"ok": counts}:
-            return f"{k}: the same seed gave a different result on a fresh sampler"
         return None
 
     def _oracle_sample(self, c, obs):
@@ -1183,6 +1270,16 @@ class C07:
                 return "QuickSampler.sample_N_outputs did not return exactly N samples"
             if obs["ok"]["_again"] != obs["ok"]["counts"]:
                 return "QuickSampler.sample_N_outputs: same seed, different result"
+            if obs["ok"].get("_same", obs["ok"]["counts"]) != obs["ok"]["counts"]:
+                return "QuickSampler.sample_N_outputs: same seed, different result when repeated on the same object"
+            ns = obs["ok"].get("_noseed")
+            if ns is not None:
+                if sum(n for _, n in ns) != c["N"]:
+                    return "QuickSampler.sample_N_outputs (no seed) did not return exactly N samples"
+                for s_, _ in ns:
+                    if (len(s_) != im or sum(s_) != ph or (not c["pc"] and max(s_, default=0) > 1) or not ref_psel(c["psel"], tuple(s_))
+                            or tuple(s_) not in keys):
+                        return f"QuickSampler.sample_N_outputs (no seed) returned {s_}, not an allowed output"
         return None
 
     def _oracle_postsel(self, c, obs):
